@@ -103,6 +103,19 @@ class Engine:
                 "\n\n```{include} no-such-file.inc\n```\n\nafter the missing include\n",
             ])
             files[d + ".md"] = files[d + ".md"].rstrip("\n") + extra
+        builder = s.choice(["xml", "xml", "html"])
+        if g.random() < 0.25:
+            # a document enables the math extensions only at file level (the global configuration lacks them):
+            # anything application-wide that depends on them must not depend on which process read the document
+            cfg["enable_extensions"] = [x for x in cfg["enable_extensions"] if x not in ("dollarmath", "amsmath")]
+            cand = [d for d in proj["docs"] if not files[d + ".md"].startswith("---")]
+            if cand:
+                d = g.choice(cand)
+                files[d + ".md"] = ("---\nmyst:\n  enable_extensions: [dollarmath, amsmath, deflist]\n---\n\n"
+                                    + files[d + ".md"].rstrip("\n")
+                                    + "\n\nInline $a^2$ math.\n\n$$\nb = 3\n$$\n\n\\begin{equation}\nc\n\\end{equation}\n")
+                if g.random() < 0.6:
+                    builder = "html"
         docnames = sorted(x[:-3] for x in docs)
         variants = []
         for _ in range(s.choice([1, 1, 2])):
@@ -166,7 +179,7 @@ class Engine:
                                  "read_chunks": {d: e.randrange(nchunks) for d in docnames},
                                  "write_chunks": {d: e.randrange(e.randint(1, 3)) for d in docnames},
                                  "sched": [e.randrange(0, 7) for _ in range(4 * len(docnames) + 8)]})
-        return {"engine": self.name, "files": files, "cfg": cfg, "builder": s.choice(["xml", "xml", "html"]),
+        return {"engine": self.name, "files": files, "cfg": cfg, "builder": builder,
                 "variants": variants}
 
     def plan_size(self, plan) -> dict:
